@@ -6,9 +6,9 @@
 use serde::Deserialize;
 use serde_json::json;
 use std::io::BufRead;
-use std::os::fd::RawFd;
 use std::time::{Duration, Instant};
 use vharness::handlers::*;
+use vharness::pty::*;
 use vharness::trace::{bytes_json, Sink};
 use vharness::util::*;
 
@@ -46,60 +46,6 @@ struct Scenario {
     #[serde(default)]
     baud: u32,
     steps: Vec<Step>,
-}
-
-struct Pty {
-    master: RawFd,
-    path: String,
-}
-
-fn open_pty() -> Option<Pty> {
-    unsafe {
-        let m = libc::posix_openpt(libc::O_RDWR | libc::O_NOCTTY | libc::O_NONBLOCK);
-        if m < 0 || libc::grantpt(m) != 0 || libc::unlockpt(m) != 0 {
-            return None;
-        }
-        let mut buf = [0 as libc::c_char; 128];
-        if libc::ptsname_r(m, buf.as_mut_ptr(), buf.len()) != 0 {
-            return None;
-        }
-        let path = std::ffi::CStr::from_ptr(buf.as_ptr()).to_string_lossy().to_string();
-        Some(Pty { master: m, path })
-    }
-}
-
-impl Pty {
-    fn write_all(&self, data: &[u8]) -> bool {
-        let mut off = 0;
-        let t0 = Instant::now();
-        while off < data.len() && t0.elapsed() < Duration::from_secs(2) {
-            let n = unsafe { libc::write(self.master, data[off..].as_ptr() as *const libc::c_void, data.len() - off) };
-            if n > 0 {
-                off += n as usize;
-            } else {
-                std::thread::sleep(Duration::from_millis(1));
-            }
-        }
-        off == data.len()
-    }
-    fn read_some(&self, out: &mut Vec<u8>) -> usize {
-        let mut buf = [0u8; 512];
-        let n = unsafe { libc::read(self.master, buf.as_mut_ptr() as *mut libc::c_void, buf.len()) };
-        if n > 0 {
-            out.extend_from_slice(&buf[..n as usize]);
-            n as usize
-        } else {
-            0
-        }
-    }
-}
-
-impl Drop for Pty {
-    fn drop(&mut self) {
-        unsafe {
-            libc::close(self.master);
-        }
-    }
 }
 
 fn settings_of(sc: &Scenario) -> SerialSettings {
